@@ -5,6 +5,7 @@ package vc
 
 import (
 	"fmt"
+	"os"
 	"go/types"
 	"sort"
 	"strconv"
@@ -68,6 +69,10 @@ func (fr *frame) call(c *ssa.CallCommon, site *ssa.Call, st *State) TV {
 			cl = fr.clos[mc]
 		}
 	}
+	// ---- call-site assertions of the function under verification ----
+	if fr.isTop && s.FC != nil && len(s.FC.Ats) > 0 && site != nil {
+		fr.atAsserts(key, site, args, c, st)
+	}
 	// ---- contract ----
 	if fc := s.P.contractFor(key); fc != nil && !fc.Inline {
 		return fr.applyContract(fc, key, callee, sig, c, args, argVals, resT, st)
@@ -84,6 +89,9 @@ func (fr *frame) call(c *ssa.CallCommon, site *ssa.Call, st *State) TV {
 	res := s.freshValue(st, "r:"+lastSeg(key), resT)
 	if callee != nil && callee.Blocks != nil && (callee.Parent() != nil || (callee.Pkg != nil && IsRepoPath(callee.Pkg.Pkg.Path()))) {
 		s.Opaque[key] = true
+		if os.Getenv("GOVC_DEBUG") != "" {
+			fmt.Fprintf(os.Stderr, "opaque %s mods=%v\n", key, s.P.ModsOf(callee))
+		}
 		s.havoc(st, s.P.ModsOf(callee), key)
 		if cl != nil {
 			fr.havocBindings(cl, st)
@@ -369,6 +377,12 @@ func (fr *frame) applyContract(fc *FuncContract, key string, callee *ssa.Functio
 	}
 	if len(mods) > 0 {
 		s.havoc(st, mods, key)
+	} else {
+		// the callee may allocate
+		oldTop := s.top(st)
+		nt := s.fresh("TOP", "Int")
+		s.assume(st, fmt.Sprintf("(>= %s %s)", nt, oldTop))
+		st.Maps["TOP"] = nt
 	}
 	if len(fc.ModArgs) > 0 {
 		names := paramNames(callee, sig, c.IsInvoke())
@@ -639,4 +653,34 @@ func (fr *frame) modelled(key string, args []TV, resT types.Type, st *State) (TV
 		return r, true
 	}
 	return TV{}, false
+}
+
+// atAsserts emits the obligations of `at <callee> assert` clauses matching this call.
+func (fr *frame) atAsserts(key string, site *ssa.Call, args []TV, c *ssa.CallCommon, st *State) {
+	s := fr.s
+	for _, at := range s.FC.Ats {
+		if !(key == at.Callee || strings.HasSuffix(key, "."+at.Callee) || strings.HasSuffix(key, "/"+at.Callee)) {
+			continue
+		}
+		env := fr.env0.child()
+		env.st = st
+		hasRecv := c.IsInvoke() || (c.StaticCallee() != nil && c.StaticCallee().Signature.Recv() != nil)
+		for i, a := range args {
+			pi := i
+			if hasRecv {
+				pi = i - 1
+			}
+			if pi >= 0 {
+				env.vars["$"+strconv.Itoa(pi)] = a
+			} else {
+				env.vars["recv"] = a
+			}
+		}
+		blk := site.Block()
+		env.local = func(name string) (TV, bool) { return fr.lookupLocalBefore(name, blk, site, st) }
+		g := s.evalBool(env, at.C.E)
+		fr.atCount[at.C.Label]++
+		s.addObl(&Obligation{Name: fmt.Sprintf("%s#at:%s:%s@%d", shortKey(FuncKey(s.Top)), at.Callee, at.C.Label, fr.atCount[at.C.Label]), Props: fr.propsOf(at.C), Kind: "call-site-assert", Label: at.C.Label, Goal: fmt.Sprintf("(=> %s %s)", st.Guard, g), Src: at.C.Src})
+		fr.atHit[at.C.Label] = true
+	}
 }
